@@ -115,7 +115,7 @@ fn mutate(rng: &mut Rng, text: &str) -> String {
     }
     let pos = rng.usize(chars.len());
     let mut out: Vec<char> = chars.clone();
-    match rng.below(9) {
+    match rng.below(10) {
         0 => {
             out.remove(pos);
         }
@@ -158,6 +158,19 @@ fn mutate(rng: &mut Rng, text: &str) -> String {
             let lines: Vec<&str> = text.split('\n').collect();
             let k = rng.usize(lines.len());
             let v: Vec<&str> = lines.iter().enumerate().filter(|(i, _)| *i != k).map(|(_, l)| *l).collect();
+            return v.join("\n");
+        }
+        9 => {
+            // duplicate a whole line (a label definition twice, an instruction twice)
+            let lines: Vec<&str> = text.split('\n').collect();
+            let k = rng.usize(lines.len());
+            let mut v: Vec<&str> = vec![];
+            for (i, l) in lines.iter().enumerate() {
+                v.push(l);
+                if i == k && i > 0 {
+                    v.push(l);
+                }
+            }
             return v.join("\n");
         }
         7 => {
@@ -277,6 +290,10 @@ fn directed() -> Vec<(String, bool)> {
     }
     t(&forty, true);
     t(&format!("{}L40:\n", forty), false);
+    // more than 40 definitions are too many even if names repeat (also case-insensitively, also via .EQU)
+    t(&format!("{}L39:\n", forty), false);
+    t(&format!("{}l0:\n", forty), false);
+    t(&format!("{}.EQU L1 5\n", forty), false);
     v.push(("NOP".to_string(), false));
     v.push(("".to_string(), false));
     v.push(("#!mrasm\nNOP".to_string(), false));
